@@ -161,6 +161,10 @@ def mode_replay(path: str, events: bool) -> int:
     with open(path) as f:
         doc = json.load(f)
     scn = doc["scenario"] if "scenario" in doc else doc
+    if doc.get("cross_hashseed") and os.environ.get("VERIF_CROSS_CHILD") != "1":
+        return mode_replay_cross(path, doc)
+    if os.environ.get("VERIF_CROSS_CHILD") == "1":
+        scn["hashseed"] = int(os.environ["PYTHONHASHSEED"])
     ensure_env(scn["hashseed"])
     faulthandler.enable()
     faulthandler.dump_traceback_later(600, exit=True)
@@ -183,6 +187,36 @@ def mode_replay(path: str, events: bool) -> int:
     print(json.dumps(res, sort_keys=True))
     if res["verdict"] == "violation":
         print(f"VIOLATION property={scn['prop']} replay={os.path.abspath(path)}")
+        return 1
+    return 0
+
+
+def mode_replay_cross(path: str, doc) -> int:
+    """replay a scenario under two PYTHONHASHSEEDs in two fresh interpreters; the event logs (canonical result
+    digests per operation) must be identical"""
+    import subprocess
+
+    logs = []
+    for hs in doc["cross_hashseed"]:
+        env = dict(os.environ)
+        env.update(PINNED_ENV)
+        env.update({"PYTHONHASHSEED": str(hs), "VERIF_CROSS_CHILD": "1"})
+        env.pop("VERIF_REEXEC", None)
+        r = subprocess.run([sys.executable, os.path.abspath(__file__), "replay", path], env=env,
+                           stdout=subprocess.PIPE, stderr=subprocess.PIPE, text=True, timeout=900)
+        try:
+            res = json.loads(r.stdout.splitlines()[0])
+        except Exception:
+            print(json.dumps({"verdict": "harness-error", "trace": (r.stdout + r.stderr)[-2000:]}))
+            return 2
+        logs.append((hs, res["verdict"], res["log"]))
+    same = len({(v, l) for _, v, l in logs}) == 1
+    prop = doc["scenario"]["prop"]
+    out = {"verdict": "ok" if same else "violation", "cross_hashseed": logs,
+           "sig": None if same else [prop, "cross-process", "result-depends-on-PYTHONHASHSEED"], "log": logs[0][2]}
+    print(json.dumps(out, sort_keys=True))
+    if not same:
+        print(f"VIOLATION property={prop} replay={os.path.abspath(path)}")
         return 1
     return 0
 
